@@ -1,20 +1,48 @@
+import CkbVerif.Model.Pool
 /-!
-# `_update_tx_pool_for_reorg` (tx-pool/src/process.rs) on the entries that were pooled before
+# `update_tx_pool_for_reorg` (tx-pool/src/process.rs): the pool and the chain side of one chain change
 
-Abstract pool: entries with id, stage, spent out-points, cell-dep out-points, header deps and the
-descendant set `calc_descendants` gave before the update (out-points, headers and ids are opaque
-numbers). The function follows the order of the Rust code:
+Abstract pool: a list of entries with id, stage, spent out-points, cell-dep out-points, header deps,
+created out-points and size (out-points, headers and ids are opaque numbers).
+
+**Links are derived, not given.** `PoolMap` records a parent/child link between two pooled
+transactions when the child spends an output of the parent, has an output of the parent as a cell
+dep, or spends a cell the parent has as a cell dep (`get_tx_ancenstors` / `record_entry_descendants`
+in tx-pool/src/component/pool_map.rs); `remove_entry_links` drops exactly the links of the removed
+entry. `isChild`/`childIds` compute that relation from the entries, `descOf` is
+`TxLinksMap::calc_descendants` (the closure computation `Pool.calcRelation` of the C11 model) over it.
+
+**Chain side.** `Args.live` is the live-cell set at the old tip; `newLive` un-commits the detached
+transactions (newest first: outputs vanish, inputs come back — `detach_block_cell`) and commits the
+attached ones (`attach_block_cell`). `retain` = detached \ attached (`detached.difference(&attached)`).
+
+**The update**, in the order of the Rust code (`_update_tx_pool_for_reorg`):
 `remove_committed_txs` (per attached tx: `remove_entry` of the tx itself, then `resolve_conflict`:
 the pooled spender of each of its inputs and every pooled tx having that input as a cell dep go,
 with their descendants), `resolve_conflict_header_dep` (entries with a detached header dep, with
 descendants), `remove_by_detached_proposal` (non-pending entries with a detached proposal id go back
 to pending together with their descendants), the mine-mode stage moves (gap → proposed, pending →
-proposed | gap, by the new snapshot's proposal view), `remove_expired` (each expired entry goes
-with its descendants — `remove_entry_and_descendants`, as repaired by /repo 3724ae4; `updatePreF5` keeps
-the earlier `remove_entry`-only behaviour for the witness theorem). Re-adding detached transactions and `limit_size` are outside this model (the harness
-checks them with the implementation-only oracle). Core Lean only.
+proposed | gap, by the new snapshot's proposal view), `remove_expired` (each expired entry goes with
+its descendants — `remove_entry_and_descendants`, as repaired by /repo 3724ae4; `updatePreF5` keeps
+the earlier `remove_entry`-only behaviour for the witness theorem), `limit_size` (`limitSize`: evict
+with descendants while the total size exceeds the limit; pending before gap before proposed, within a
+stage by the preference list `evictPref` that stands for the evict-key order).
+
+**The re-adds** (`readd_detached_tx`): every transaction of `retain`, in block order, is resolved
+against pool + NEW chain (`resolve_tx` with `rbf = false`: an out-point spent by a pooled entry is
+dead, an output of a pooled entry is live, otherwise the new chain decides; header deps must be on the
+new main chain), must pass the fee check and script verification (`ok`, an input: it does not depend
+on the pool), and is then inserted by `_submit_entry` at the stage the new proposal window gives its
+id: nothing happens if the id is already pooled, it is refused if it would have more than
+`max_ancestors_count - 1` pooled ancestors. A failure only skips that transaction.
+(`check_and_record_ancestors`'s branch that evicts cell-ref parents when the ancestor limit is exceeded
+only because of them is modelled as the refusal.)
+
+`reorg` = the whole write-locked section. `removeCommittedSkip` / `updateSkip` are the seeded variant
+C12/m1 (early return when the committed transaction was pooled itself). Core Lean only.
 -/
 namespace CkbVerif.Reorg
+open CkbVerif.Pool (calcRelation)
 
 structure PEnt where
   id : Nat
@@ -23,32 +51,84 @@ structure PEnt where
   spent : List Nat
   deps : List Nat
   hdeps : List Nat
-  desc : List Nat
+  outs : List Nat
+  size : Nat := 0
 deriving Repr, DecidableEq, Inhabited
 
 abbrev Pool := List PEnt
 
-structure Tx where
+/-- a transaction of an attached or detached block -/
+structure CTx where
   id : Nat
-  inputs : List Nat
+  spent : List Nat
+  deps : List Nat := []
+  hdeps : List Nat := []
+  outs : List Nat := []
+  /-- fee ≥ min fee and the scripts verify (same verdict at every admission) -/
+  ok : Bool := true
+  size : Nat := 0
 deriving Repr, DecidableEq, Inhabited
 
 structure Args where
-  attached : List Tx
+  attached : List CTx
   detachedHeaders : List Nat
   detachedProposals : List Nat
   gap : List Nat
   proposed : List Nat
   expired : List Nat
+  /-- non-cellbase transactions of the detached blocks, block order -/
+  detached : List CTx := []
+  /-- live out-points at the old tip -/
+  live : List Nat := []
+  maxAnc : Nat := 25
+  maxSize : Nat := 180000000
+  evictPref : List Nat := []
 deriving Repr, Inhabited
+
+/-! ## links derived from the entries -/
+
+/-- `c` references `e`: spends or depends on an output of `e`, or spends a cell `e` depends on -/
+def refs (e c : PEnt) : Bool :=
+  c.spent.any e.outs.contains || c.deps.any e.outs.contains || c.spent.any e.deps.contains
+
+/-- `c` is a link child of `e` -/
+def isChild (e c : PEnt) : Bool := c.id != e.id && refs e c
+
+def ids (p : Pool) : List Nat := p.map (·.id)
+
+/-- `links.get_children(id)` -/
+def childIds (p : Pool) (id : Nat) : List Nat :=
+  let es := p.filter (·.id == id)
+  (p.filter fun c => es.any fun e => isChild e c).map (·.id)
+
+/-- `calc_descendants` -/
+def descOf (p : Pool) (id : Nat) : List Nat := calcRelation (childIds p) (ids p) (childIds p id)
+
+/-- `links.get_parents(id)` -/
+def parentIds (p : Pool) (id : Nat) : List Nat :=
+  let cs := p.filter (·.id == id)
+  (p.filter fun e => cs.any fun c => isChild e c).map (·.id)
+
+/-- `calc_relation_ids(stage, Parents)` -/
+def ancestorsOf (p : Pool) (stage : List Nat) : List Nat := calcRelation (parentIds p) (ids p) stage
+
+/-! ## the chain side -/
+
+/-- `detach_block_cell` for one transaction -/
+def detachTx (live : List Nat) (t : CTx) : List Nat := (live.filter fun o => !t.outs.contains o) ++ t.spent
+/-- `attach_block_cell` for one transaction -/
+def attachTx (live : List Nat) (t : CTx) : List Nat := (live.filter fun o => !t.spent.contains o) ++ t.outs
+
+/-- live out-points at the new tip -/
+def newLive (a : Args) : List Nat := a.attached.foldl attachTx (a.detached.reverse.foldl detachTx a.live)
+
+/-- `detached.difference(&attached)` -/
+def retain (a : Args) : List CTx := a.detached.filter fun d => !a.attached.any (·.id == d.id)
+
+/-! ## `_update_tx_pool_for_reorg` -/
 
 /-- `remove_entry` -/
 def removeEntry (p : Pool) (id : Nat) : Pool := p.filter (·.id != id)
-
-def descOf (p : Pool) (id : Nat) : List Nat :=
-  match p.find? (·.id == id) with
-  | some e => e.desc
-  | none => []
 
 /-- `remove_entry_and_descendants` -/
 def removeWithDesc (p : Pool) (id : Nat) : Pool :=
@@ -63,8 +143,12 @@ def resolveInput (p : Pool) (i : Nat) : Pool :=
   (p1.filter fun e => e.deps.contains i).foldl (fun q e => removeWithDesc q e.id) p1
 
 /-- `remove_committed_tx` -/
-def removeCommitted (p : Pool) (tx : Tx) : Pool :=
-  tx.inputs.foldl resolveInput (removeEntry p tx.id)
+def removeCommitted (p : Pool) (tx : CTx) : Pool :=
+  tx.spent.foldl resolveInput (removeEntry p tx.id)
+
+/-- seeded variant C12/m1: early return when the committed transaction was pooled itself -/
+def removeCommittedSkip (p : Pool) (tx : CTx) : Pool :=
+  if p.any (·.id == tx.id) then removeEntry p tx.id else tx.spent.foldl resolveInput p
 
 /-- `resolve_conflict_header_dep` -/
 def resolveHeaderDeps (p : Pool) (hs : List Nat) : Pool :=
@@ -75,7 +159,8 @@ def detachProposal (p : Pool) (id : Nat) : Pool :=
   match p.find? (·.id == id) with
   | some e =>
     if e.status == 0 then p else
-    p.map fun x => if x.id == id || e.desc.contains x.id then { x with status := 0 } else x
+    let ds := descOf p id
+    p.map fun x => if x.id == id || ds.contains x.id then { x with status := 0 } else x
   | none => p
 
 /-- the mine-mode moves -/
@@ -100,5 +185,90 @@ def updatePreF5 (p : Pool) (a : Args) : Pool :=
   let p3 := a.detachedProposals.foldl detachProposal p2
   let p4 := p3.map (moveStage a)
   a.expired.foldl removeEntry p4
+
+/-- the update with the seeded variant C12/m1 of `remove_committed_tx` -/
+def updateSkip (p : Pool) (a : Args) : Pool :=
+  let p1 := a.attached.foldl removeCommittedSkip p
+  let p2 := resolveHeaderDeps p1 a.detachedHeaders
+  let p3 := a.detachedProposals.foldl detachProposal p2
+  let p4 := p3.map (moveStage a)
+  a.expired.foldl removeWithDesc p4
+
+/-! ## `limit_size` -/
+
+def totalSize (p : Pool) : Nat := (p.map (·.size)).sum
+
+/-- `next_evict_entry(status)`: the first id of the preference list pooled at that stage, else the
+    first entry of the pool at that stage -/
+def nextEvictAt (p : Pool) (pref : List Nat) (st : Nat) : Option Nat :=
+  match pref.find? (fun id => p.any fun e => e.id == id && e.status == st) with
+  | some id => some id
+  | none => (p.find? (·.status == st)).map (·.id)
+
+def nextEvict (p : Pool) (pref : List Nat) : Option Nat :=
+  match nextEvictAt p pref 0 with
+  | some id => some id
+  | none =>
+    match nextEvictAt p pref 1 with
+    | some id => some id
+    | none =>
+      match nextEvictAt p pref 2 with
+      | some id => some id
+      | none => p.head?.map (·.id)
+
+def limitLoop (maxSize : Nat) (pref : List Nat) : Nat → Pool → Pool
+  | 0, p => p
+  | f + 1, p =>
+    if totalSize p > maxSize then
+      match nextEvict p pref with
+      | some id => limitLoop maxSize pref f (removeWithDesc p id)
+      | none => p
+    else p
+
+def limitSize (a : Args) (p : Pool) : Pool := limitLoop a.maxSize a.evictPref (p.length + 1) p
+
+/-- `_update_tx_pool_for_reorg` including `limit_size` -/
+def updateL (p : Pool) (a : Args) : Pool := limitSize a (update p a)
+
+/-! ## `readd_detached_tx` -/
+
+/-- the stage the new proposal view gives an id (`get_tx_status`) -/
+def windowStage (a : Args) (id : Nat) : Nat :=
+  if a.proposed.contains id then 2 else if a.gap.contains id then 1 else 0
+
+def hasId (q : Pool) (id : Nat) : Bool := q.any (·.id == id)
+def spentInPool (q : Pool) (o : Nat) : Bool := q.any (·.spent.contains o)
+def madeInPool (q : Pool) (o : Nat) : Bool := q.any (·.outs.contains o)
+
+/-- `OverlayCellProvider(PoolCell{rbf: false}, snapshot)` says live -/
+def cellLive (q : Pool) (live : List Nat) (o : Nat) : Bool :=
+  !spentInPool q o && (madeInPool q o || live.contains o)
+
+/-- `resolve_tx` succeeds: inputs, cell deps and header deps -/
+def resolves (q : Pool) (a : Args) (live : List Nat) (t : CTx) : Bool :=
+  t.spent.all (cellLive q live) && t.deps.all (cellLive q live) && t.hdeps.all fun h => !a.detachedHeaders.contains h
+
+def entryOf (a : Args) (t : CTx) : PEnt :=
+  { id := t.id, status := windowStage a t.id, spent := t.spent, deps := t.deps, hdeps := t.hdeps, outs := t.outs, size := t.size }
+
+/-- the pooled parents `get_tx_ancenstors` finds for a new transaction -/
+def linkParentsOf (q : Pool) (t : CTx) : List Nat :=
+  (q.filter fun x => t.spent.any x.outs.contains || t.deps.any x.outs.contains || t.spent.any x.deps.contains).map (·.id)
+
+def readdOne (a : Args) (live : List Nat) (q : Pool) (t : CTx) : Pool :=
+  if resolves q a live t && t.ok then
+    if hasId q t.id then q
+    else if (ancestorsOf q (linkParentsOf q t)).length + 1 > a.maxAnc then q
+    else q ++ [entryOf a t]
+  else q
+
+def readd (a : Args) (live : List Nat) (q : Pool) (l : List CTx) : Pool := l.foldl (readdOne a live) q
+
+/-- the write-locked section of `update_tx_pool_for_reorg` -/
+def reorg (p : Pool) (a : Args) : Pool := readd a (newLive a) (updateL p a) (retain a)
+
+/-- the same with the seeded variant C12/m1 -/
+def reorgSkip (p : Pool) (a : Args) : Pool :=
+  readd a (newLive a) (limitSize a (updateSkip p a)) (retain a)
 
 end CkbVerif.Reorg
